@@ -2,7 +2,7 @@
    Only statements; every proof is one lemma of the Proofs* files. *)
 From Coq Require Import List Bool Arith ZArith QArith Qcanon.
 From AL Require Import Base.CaseLib C04.Model C06.Model C06.Spec.
-From AL Require Import C04.Spec C06.ProofsAlg C06.ProofsPull C06.ProofsLoop C06.ProofsWf C06.ProofsEq C06.ProofsGain C06.ProofsKeys C06.ProofsUniq C06.ProofsLin C06.ProofsLin2 C06.ProofsLin3 C06.ProofsLin4 C06.Check.
+From AL Require Import C04.Spec C06.ProofsAlg C06.ProofsPull C06.ProofsLoop C06.ProofsWf C06.ProofsEq C06.ProofsGain C06.ProofsKeys C06.ProofsUniq C06.ProofsLin C06.ProofsLin2 C06.ProofsLin3 C06.ProofsLin4 C06.ProofsWorld C06.ProofsWorld2 C06.ProofsWorld3 C06.ProofsWorld4 C06.Check.
 Import ListNotations.
 Open Scope Qc_scope.
 
@@ -76,9 +76,10 @@ Print Assumptions C06_pull_value.
    the gain branch) is C06_tv_diffeq below.
    PARTIAL: wf_prog is checked per sampled filter.  The unconditional form is
    C06_lin_round_spec (hypothesis linf, syntactic); linf is proved for filters made of
-   distinct sources and constants (C06_simple_linf); what is left is the preservation of
-   linf by pmul / padd / pcopy / mk_tfilt / divide_through, i.e. linf for the results
-   of the arithmetic and for the variable-gain branch. *)
+   distinct sources and constants (C06_simple_linf) and for every product / scaling /
+   division by a scalar / negation / shifted denominator of such filters
+   (C06_built_linf_mul); what is left is linf for sums (Poly.__add__ and the tee copies
+   of ZFilter.__add__: padd, pcopy) and for the variable-gain branch (divide_through). *)
 Theorem C06_tv_round_spec_partial : forall S (f : tfilt) (p : tprog) memory zero fuel,
   wf_prog f p = true ->
   round_spec S (stream_iters (t_num f)) (stream_iters (t_den f)) p fuel 0
@@ -166,6 +167,35 @@ Theorem C06_base_round_spec : forall S (n d : tdata) h f h1 h2 zero p memory fue
          (segs (run_tv S (TGen p) f memory zero fuel) []).
 Proof. exact base_round_spec. Qed.
 Print Assumptions C06_base_round_spec.
+
+(* linf for the results of the arithmetic: every filter built by products, scalings by a
+   number or a Stream from either side, divisions by a number or a Stream, negations (and
+   the denominator shift of the constructor) from filters made of pairwise distinct sources
+   and constants is a linear family.  Proof: a world invariant (the leaves of all live
+   Stream objects + a growing hub table, C06.ProofsWorld) kept by Poly.__mul__ (every thub
+   is a batch of fresh hubs, every product two fresh copies), by the merging of equal
+   powers, by compaction and by the constructor; induction over the expression. *)
+Theorem C06_built_linf_mul : forall e f h',
+  mul_only e -> fexp_simple e -> NoDup (esrcs e) -> ~ In (LSrc 0) (esrcs e) ->
+  build coef_alg e 0 = BOk f h' -> exists HT, linf HT f.
+Proof. exact built_linf_mul. Qed.
+Print Assumptions C06_built_linf_mul.
+
+(* end to end, nothing evaluated on samples: products / scalings with a number as gain *)
+Theorem C06_products_round_spec : forall S e f h1 h2 zero p memory fuel,
+  mul_only e -> fexp_simple e -> bases_ok e ->
+  NoDup (esrcs e) -> ~ In (LSrc 0) (esrcs e) ->
+  build coef_alg e 0 = BOk f h1 ->
+  prepare h1 f = Ok (BOk f h2) -> tcodegen f zero = Ok (TGen p) ->
+  round_spec S (stream_iters (t_num f)) (stream_iters (t_den f)) p fuel 0
+             (unpack (p_mvars (tp_prog p)) memory empty_env)
+             (assign_all (p_dvars (tp_prog p)) zero empty_env)
+             (run_tv S (TGen p) f memory zero fuel) /\
+  Forall (fun seg => seg = 0%nat :: snd (aterms (stream_iters (t_num f)) (stream_iters (t_den f))
+                                               (p_terms (tp_prog p)) p_zero))
+         (segs (run_tv S (TGen p) f memory zero fuel) []).
+Proof. exact products_round_spec. Qed.
+Print Assumptions C06_products_round_spec.
 
 (* tv_diffeq, in full.  For a filter with keys in order (distinct non-negative powers),
    whatever subset of its coefficients are Stream objects (built by any arithmetic),
@@ -417,3 +447,21 @@ Proof.
   - simpl. repeat constructor; simpl; intuition discriminate.
 Qed.
 Print Assumptions C06_nonvacuous_lin.
+
+(* (s1 + 2 z^-1) * (1 + s2 z^-1) scaled by s3: the hypotheses of C06_products_round_spec hold *)
+Definition ex4 : fexp :=
+  FMulL (CStr (XSrc 3)) (FMul (FBase [(0%Z, CStr (XSrc 1)); (1%Z, CNum (qc 2 1))] [(0%Z, CNum 1)])
+                              (FBase [(0%Z, CNum 1); (1%Z, CStr (XSrc 2))] [(0%Z, CNum 1)])).
+Example C06_nonvacuous_products :
+  mul_only ex4 /\ fexp_simple ex4 /\ bases_ok ex4 /\ NoDup (esrcs ex4) /\ ~ In (LSrc 0) (esrcs ex4) /\
+  exists f h, build coef_alg ex4 0 = BOk f h /\ prepare h f = Ok (BOk f h).
+Proof.
+  split; [simpl; tauto|]. split.
+  { simpl. repeat split; try exact I; intros kv Hin; simpl in Hin;
+      repeat (destruct Hin as [<-|Hin]; [exact I|]); destruct Hin. }
+  split; [simpl; repeat split; repeat constructor; simpl; intuition discriminate|].
+  split; [simpl; repeat constructor; simpl; intuition discriminate|].
+  split; [simpl; intuition discriminate|].
+  eexists. eexists. split; vm_compute; reflexivity.
+Qed.
+Print Assumptions C06_nonvacuous_products.
